@@ -13,6 +13,14 @@ M = {
  ("C04",2): ("Orientation._dot_outer_dask: axis permutation built from self.ndim instead of other.ndim", "lazy=True and self.ndim != other.ndim", ["C04: outer (failing input)", "C18: symmetry_lazy (failing input)"], None),
  ("C05",1): ("get_distinguished_points: s1.outer(s2) -> s2.outer(s1)", "ordered pairs cubic x trigonal/hexagonal; 2-10 % of misorientations", ["C05: large_cell_normals + reduce (failing input)"], "C05 sampled too few cubic x hexagonal ordered pairs and took the distinguished points from the code under test: independent products gl*gr and all cross-family pairs added"),
  ("C05",2): ("get_proper_groups: Gr.proper_subgroup -> Gr.laue_proper_subgroup in the proper/improper branch", "Gr one of the 10 improper groups without inversion", ["C05: reduce (failing input)"], None),
+ ("C06",1): ("Orientation.dot builds the misorientation from .data (improper flags dropped)", "a point group with improper operations but no inversion, exactly one of the two orientations improper; element-wise path only", ["C06: relation (failing input)"], None),
+ ("C06",2): ("Misorientation.map_into_symmetry_reduced_zone builds the region for (Gr, Gl)", "two different point groups with Gl.Gr != Gr.Gl (cubic x hexagonal/trigonal), 3-10 % of misorientations", ["C05: reduce (failing input)", "C06: subtract (failing input)"], "C06 never compared the subtraction path O1 - O2 with angle_with: site subtract with bulk interphase pairs added"),
+ ("C13",1): ("dict2phaselist sorts the HDF5 group names as strings and pairs them with the numerically sorted ids", "a phase list with a two-digit id next to a smaller id that sorts after it as text (2 and 10)", ["C13: h5_prop (failing input)"], "C13 drew phase ids below 8 only: two- and three-digit ids added"),
+ ("C13",2): ("atom coordinates written/read through the lattice (fractional vs Cartesian mix-up)", "a phase with atoms in a non-cubic lattice", ["C13: h5_prop (failing input)"], None),
+ ("C14",1): ("ang writer renumbers phases without the reversal", "two or more phases", ["C14: ang_corr (model file vs written file)", "C14: ang_prop (failing input)"], None),
+ ("C14",2): ("proper point group looked up through the wrong table on load/save", "phases whose point group is improper (proper subgroup expected)", ["C14: ang_prop (failing input)"], None),
+ ("C15",1): ("ang reader applies the ci == -1 not-indexed rule to vendor 'tsl' only (orix layout dropped)", "a multi-phase file in orix's own .ang layout with not-indexed points (phase column 0, ci -1)", ["C15: orix_ang_prop (failing input); T-gen obligation CodecAngGen", "C14: ang_prop (failing input)"], "the IO table extractor crashed on the changed source (harness error instead of a verdict): extractor made total; C15 had no file in orix's own layout: sites orix_ang_corr / orix_ang_prop render the model writer's file independently of orix's writer"),
+ ("C15",2): ("_fix_astar_coords rebuilds coordinates with create_coordinate_arrays(shape, (xstep, ystep)) (steps swapped)", "a NanoMegas ASTAR .ctf whose XStep differs from YStep and whose 4-decimal coordinates make shape detection fail", ["C15: vendor_prop (failing input)"], "C15 generated ASTAR .ctf files with equal steps only: unequal steps added"),
  ("C07",1): ("in_fundamental_sector: v.z < 0 -> v.z <= 0 in the hemisphere pre-flip of the special groups", "groups -4, -3, 321, 312, 32 and a direction with z exactly 0", ["C07: projection, idempotence (failing input)"], None),
  ("C07",2): ("sector operations cached in a dict keyed by symmetry.name only", "projection with '2/m' (C2h) and then with the Laue group of 121/1m1 (also named '2/m') in one process", ["C07: projection (failing input)", "C08: direction_colour (failing input)"], None),
  ("C08",1): ("polar_coordinates_in_sector uses np.fmin instead of NaN replacement + np.minimum", "a direction that is bit-exactly the sector centre", ["C08: direction_colour, non-finite colour (failing input)"], None),
@@ -43,9 +51,10 @@ if os.path.exists(extra):
         M[(a, int(b))] = tuple(v)
 rows = []
 for (pid, n), (what, needs, caught, missed) in sorted(M.items()):
-    src = f"/tmp/seed/{pid}/_out"
+    root, k = ("/tmp/seed", n) if n <= 2 else ("/tmp/seed2", n - 2)     # round 2 is recorded as <id>-3 / <id>-4
+    src = f"{root}/{pid}/_out"
     d = f"/verif/seeded/{pid}-{n}"
-    resf = f"/tmp/seed/results/{pid}_{n}.json"
+    resf = f"{root}/results/{pid}_{k}.json"
     res = None
     try:
         res = json.load(open(resf))
@@ -58,8 +67,8 @@ for (pid, n), (what, needs, caught, missed) in sorted(M.items()):
             print("skip (not validated)", pid, n)
             continue
         os.makedirs(d, exist_ok=True)
-        shutil.copy(f"{src}/patch{n}.diff", f"{d}/patch.diff")
-        shutil.copy(f"{src}/demo{n}.py", f"{d}/demo.py")
+        shutil.copy(f"{src}/patch{k}.diff", f"{d}/patch.diff")
+        shutil.copy(f"{src}/demo{k}.py", f"{d}/demo.py")
         meta = {"id": f"{pid}-{n}", "property": pid, "change": what, "needs_to_manifest": needs,
                 "author": "independent sub-agent given only the property text and a scratch worktree of /repo",
                 "validated": {"how": "tools/validate_seed.py in a scratch worktree of /repo's HEAD: patch applies; demo exits non-zero "
